@@ -26,10 +26,11 @@ STATIC_TRUSTED = [
 
 
 def write_evidence(pid, tier, seed, keys, reports, obligations, standins,
-                   violations, stats, wall_s, pkg, out_lines) -> None:
+                   violations, stats, wall_s, pkg, out_lines,
+                   claimed: str = "proof", claim_note: str = "") -> None:
     n = len(obligations)
     ok = sum(1 for o in obligations if o.status == "proved")
-    level = "proof" if ok == n else "other"
+    level = "proof" if (ok == n and claimed == "proof") else "other"
     ledger = set()
     funcs = []
     for k in keys:
@@ -85,7 +86,12 @@ def write_evidence(pid, tier, seed, keys, reports, obligations, standins,
              "per (function, scenario, case, clause); stand-in cases are "
              "enumerated inputs run on the real code, distinct by input tuple",
     )
-    if level == "other":
+    if level == "other" and ok == n:
+        cov["explanation"] = (
+            f"all {n} obligations generated for the functions under contract "
+            f"were discharged, but the claim for this property is not "
+            f"proof-level: {claim_note}")
+    elif level == "other":
         cov["explanation"] = (
             f"{n - ok} of {n} obligations were not discharged on this run "
             f"(refuted or undecided, see per_obligation); the claim for this "
